@@ -149,6 +149,7 @@ int str_table_get_index(str_table_t *table, const char *str, size_t *idx)
 		free(new);
 		ent->key = NULL;
 		ent->data = NULL;
+		table->ht->entries -= 1;
 		return SQFS_ERROR_ALLOC;
 	}
 
